@@ -297,8 +297,10 @@ func kindOf(v *jv) string {
 	case jStr:
 		return "str"
 	case jObj:
+		// "objstr": what json.Unmarshal accepts into a map[string]string -- every member a
+		// string or null (a null member leaves the zero value)
 		for _, kv := range v.obj {
-			if kv.val.k != jStr {
+			if kv.val.k != jStr && kv.val.k != jNull {
 				return "obj"
 			}
 		}
